@@ -1378,10 +1378,14 @@ class C09(core.Check):
         "relative tolerance, all other geometry with 1e-8",
     ]
     partial_note = (
-        "theorems cover the recursive delegation over an arbitrary part tree (heap model, NoAlias), the four point "
-        "primitives as similarities, default-origin equivariance of the modelled centre rules, copy independence, and "
-        "equivariance of the Origin/Angle arc constructions with square roots as witnesses; spline interpolation, "
-        "closest-parameter search of OnCurve edges and float rounding are checked by the oracle only"
+        "theorems cover the recursive delegation over an arbitrary part tree (heap model, NoAlias): transforming the "
+        "entity and reading its output geometry = transforming the output geometry as a value, for single calls and for "
+        "method chains / transformation lists of any length; the four point primitives as similarities; default-origin "
+        "equivariance of every transcribed centre rule (all entity kinds but EdgeData's constant centre) under the "
+        "entity schema, which is regenerated from the source's `parts` / `center` definitions; copy independence; "
+        "equivariance of the Origin/Angle arc constructions with square roots as witnesses. Spline interpolation, "
+        "closest-parameter search of OnCurve edges, float rounding, Shear, and the centres of Oval / spline sketches / "
+        "interpolated curves (observed values) are checked by the oracle only"
     )
 
     # ------------------------------------------------------------------ generators
